@@ -72,6 +72,24 @@ func c14R3(c *Ctx) {
 		ok := ck != nil && pr != nil && callArg(ck, 1) == callArg(pr, 1)
 		c.R.Ob(rule, "ExecTX:same-cmd", ok, c.P.Pos(f.F.Pos()), fname(f), "CheckMajor23 and ProcessAdminOP must see the same decoded command")
 	}
+	selfSignRule(c, rule)
+}
+
+// selfSignRule: the joining node's own signature in an add-peer request covers the request bytes.
+func selfSignRule(c *Ctx, rule string) {
+	f := c.Anchor(rule, aopT+".ProcessAdminOP")
+	if f == nil {
+		return
+	}
+	n := 0
+	for _, ci := range f.CallsTo(cfgx.Named("iface:gemmill/go-crypto.PubKey.VerifyBytes")) {
+		n++
+		c.R.Ob(rule, "ProcessAdminOP:self-signature-over-cmd.Msg", callArg(ci, 0) == "a1.Msg" && strings.Contains(callArg(ci, 1), "a1.SelfSign"), c.Pos(ci), fname(f),
+			"the added node's signature (cmd.SelfSign) must be verified over the request bytes cmd.Msg: verified over anything else, a request naming a key whose owner never consented is accepted; got VerifyBytes("+shorten(callArg(ci, 0))+", "+shorten(callArg(ci, 1))+")")
+	}
+	if n == 0 {
+		c.R.Undecided(rule, "ProcessAdminOP:self-signature", c.P.Pos(f.F.Pos()), fname(f), "no self-signature verification found")
+	}
 }
 
 func c14R4(c *Ctx) {
